@@ -529,6 +529,10 @@ class Tr:
                         self.refuse(f"`{name}`: iterator over something else than a slot list outside a for loop")
                     env[name] = V("cursor", of=Xc)
                     continue
+                if e == ("null",) and "*" in ty and "Listener" in ty and "const" not in ty[ty.index("*"):]:
+                    lines.append(f"let v_{name} : Option Nat := none")
+                    env[name] = V("mvar", term=f"v_{name}")
+                    continue
                 v = self.ev(e, env, lines)
                 if v.kind in ("sigit", "lit") and "Iterator" not in ty:
                     self.refuse(f"`{name}`: an iterator stored in a non-iterator")
@@ -553,8 +557,10 @@ class Tr:
         if k == "for":
             if self.S != "h":
                 self.refuse("loop in a constructor")
+            self._binder = "h"
             body = self.loop(s, dict(env), ind + "  ")
-            return f"{ind}let h :=\n{body}\n" + self.tr(rest, cont, env, ind)
+            binder, self._binder = self._binder, "h"
+            return f"{ind}let {binder} :=\n{body}\n" + self.tr(rest, cont, env, ind)
         if k == "while":
             if self.S != "h":
                 self.refuse("loop in a constructor")
@@ -798,14 +804,28 @@ class Tr:
         env1[name] = {"slist": V("sval", x=x), "llist": V("lsval", x=x),
                       "sigmap": V("keyE", e=getattr(X, "e", None), key=x),
                       "lmap": V("keyL", l=getattr(X, "l", None), key=x)}[kind]
+        # pointer locals declared before the loop and assigned in it are carried through the fold beside the heap
+        def assigned(t, acc):
+            if isinstance(t, (tuple, list)):
+                if len(t) == 3 and t[0] == "assign" and isinstance(t[1], tuple) and t[1][0] == "id":
+                    acc.add(t[1][1])
+                for u in t:
+                    assigned(u, acc)
+            return acc
+        mv = sorted(n for n in assigned(body, set()) if n in env and env[n].kind == "mvar")
+        state = "h" if not mv else "(h, " + ", ".join(env[n].term for n in mv) + ")"
         self.frozen.append(kind)
         self.in_loop += 1
+        old_S = self.S
+        self.S = state
         try:
             b = self.tr([body], None, env1, ind + "    ")
         finally:
+            self.S = old_S
             self.in_loop -= 1
             self.frozen.pop()
-        return f"{ind}{seq}.foldl (fun h {x} =>\n{b}) h"
+        self._binder = state
+        return f"{ind}{seq}.foldl (fun {state} {x} =>\n{b}) {state}"
 
     def purge_loop(self, name, X, body, env, ind):
         if X.kind != "slist":
@@ -935,6 +955,12 @@ class Tr:
             new.varname = lhs[1]
             env[lhs[1]] = new
             return new
+        if lhs[0] == "id" and lhs[1] in env and env[lhs[1]].kind == "mvar":
+            val = self.ev(rhs, env, lines)
+            if val.kind != "L":
+                self.refuse(f"`{lhs[1]}` assigned from {val}")
+            lines.append(f"let {env[lhs[1]].term} := some {val.term}")
+            return val
         if lhs[0] != "member":
             self.refuse(f"assignment to {lhs}")
         base = self.ev(lhs[2], env, lines)
@@ -1028,6 +1054,9 @@ class Tr:
                     if y.of != x.container():
                         self.refuse("iterator compared with the end of another container")
                     return V("val", term=(x.present if neg else f"(!{x.present})"), ty="bool")
+            for x, y in ((a, b), (b, a)):
+                if x.kind == "mvar" and y.kind == "L":
+                    return V("val", term=f"({x.term} {'!=' if neg else '=='} some {y.term})", ty="bool")
             for x, y in ((a, b), (b, a)):
                 # `p != 0` / `p == 0` on an activation pointer
                 if x.kind == "val" and x.ty == "act" and y.kind == "val" and y.ty == "act" and y.term == "none" and x.term != "none":
@@ -1218,6 +1247,13 @@ class Tr:
                 self.mutate("llist")
                 lines.append(f"let h := H.lRemove h {b.l} {b.e} {a.k}")
                 return V("void")
+        if f == "remove" and len(args) == 1 and b.kind == "lmap":
+            a = self.ev(args[0], env, lines)
+            if a.kind != "E":
+                self.refuse("listener map: remove of a non-emitter key")
+            self.mutate("lmap")
+            lines.append(f"let h := H.lErase h {b.l} {a.term}")
+            return V("void")
         if f == "key" and not args:
             if b.kind == "data" and be[0] == "id" and env.get(be[1]) is not None and env[be[1]].kind == "keyE":
                 return V("val", term=env[be[1]].key, ty="nat")
